@@ -71,24 +71,40 @@ AllocShapeOK(T, n, al, times) ==
                      /\ e[2] \in times /\ e[3] >= 1
     /\ \A e, f \in al : (e[1] = f[1] /\ e[2] = f[2]) => e = f
 
-LeafOK(T, P, i) ==
-    LET n == T.nodes[i]  pl == P[i] IN
-    IF ~pl.on THEN pl.alloc = {}
+\* which requirements a leaf's placement misses (empty = exact)
+LeafBad(T, P, i) ==
+    LET n == T.nodes[i]  pl == P[i]
+        If(c, tag) == IF c THEN {tag} ELSE {}
+        times == {e[2] : e \in pl.alloc}
+    IN
+    IF ~pl.on THEN If(pl.alloc # {}, "unplaced_alloc")
     ELSE CASE n.k = "Choose" ->
-                /\ n.start >= T.now
-                /\ pl.start = n.start /\ pl.end = n.start + n.dur
-                /\ AllocShapeOK(T, n, pl.alloc, {n.start})
-                /\ SumSet3(pl.alloc) = n.num
+                If(n.start < T.now, "past")
+                \cup If(pl.start # n.start, "start")
+                \cup If(pl.end # n.start + n.dur, "end")
+                \cup If(~AllocShapeOK(T, n, pl.alloc, {n.start}), "alloc")
+                \cup If(SumSet3(pl.alloc) # n.num, "amount")
            [] n.k = "WindowedChoose" ->
-                /\ pl.start \in WStarts(T, n) /\ pl.end = pl.start + n.dur
-                /\ AllocShapeOK(T, n, pl.alloc, {pl.start})
-                /\ SumSet3(pl.alloc) = n.num
+                If(pl.start < T.now, "past")
+                \cup If(pl.start \notin WStarts(T, n) /\ pl.start >= T.now, "start")
+                \cup If(pl.end # pl.start + n.dur, "end")
+                \cup If(~AllocShapeOK(T, n, pl.alloc, {pl.start}), "alloc")
+                \cup If(SumSet3(pl.alloc) # n.num, "amount")
            [] n.k = "MalleableChoose" ->
-                /\ n.start >= T.now
-                /\ AllocShapeOK(T, n, pl.alloc, MSlots(n))
-                /\ SumSet3(pl.alloc) = n.slots
-                /\ pl.start = MinOf({e[2] : e \in pl.alloc})
-                /\ pl.end = MaxOf({e[2] : e \in pl.alloc}) + n.gran
+                If(n.start < T.now, "past")
+                \cup If(~AllocShapeOK(T, n, pl.alloc, MSlots(n)), "alloc")
+                \cup If(SumSet3(pl.alloc) # n.slots, "amount")
+                \cup If(times # {} /\ pl.start # MinOf(times), "start")
+                \cup If(times # {} /\ pl.end # MaxOf(times) + n.gran, "end")
+LeafOK(T, P, i) == LeafBad(T, P, i) = {}
+
+\* the span a placed leaf really occupies (a MalleableChoose: first slot .. end of last slot)
+LeafStart(T, P, i) ==
+    IF T.nodes[i].k = "MalleableChoose" /\ P[i].alloc # {}
+    THEN MinOf({e[2] : e \in P[i].alloc}) ELSE P[i].start
+LeafEnd(T, P, i) ==
+    IF T.nodes[i].k = "MalleableChoose" /\ P[i].alloc # {}
+    THEN MaxOf({e[2] : e \in P[i].alloc}) + T.nodes[i].gran ELSE P[i].end
 
 \* --- capacity (C20.capacity) ---
 LeafUse(T, P, i, p, t) ==
@@ -111,8 +127,10 @@ Use(T, P, p, t) ==
     SumFun([i \in Leaves(T) |-> LeafUse(T, P, i, p, t)], Leaves(T))
     + SumFun([i \in AllocNodes(T) |-> AllocUse(T, i, p, t)], AllocNodes(T))
 
-CapViol(T, P) == {<<p, t>> \in Parts(T) \X Times(T) : Use(T, P, p, t) > T.q[p]}
-CapOK(T, P) == CapViol(T, P) = {}
+UseTable(T, P) == [c \in Parts(T) \X Times(T) |-> Use(T, P, c[1], c[2])]
+CapViolIn(T, ut) == {c \in DOMAIN ut : ut[c] > T.q[c[1]]}
+CapViol(T, P) == CapViolIn(T, UseTable(T, P))
+CapOK(T, P) == \A p \in Parts(T), t \in Times(T) : Use(T, P, p, t) <= T.q[p]
 
 \* --- structure ---
 RECURSIVE Cond(_, _)   \* does the satisfaction of node i depend on the placement?
@@ -138,13 +156,13 @@ Sat(T, P, i) ==
 RECURSIVE StartOf(_, _, _)
 StartOf(T, P, i) ==
     LET n == T.nodes[i] IN
-    CASE n.k \in LeafKinds -> P[i].start
+    CASE n.k \in LeafKinds -> LeafStart(T, P, i)
       [] n.k = "Allocation" -> n.start
       [] OTHER -> MinOf({StartOf(T, P, c) : c \in {c \in Kids(T, i) : Sat(T, P, c)}})
 RECURSIVE EndOf(_, _, _)
 EndOf(T, P, i) ==
     LET n == T.nodes[i] IN
-    CASE n.k \in LeafKinds -> P[i].end
+    CASE n.k \in LeafKinds -> LeafEnd(T, P, i)
       [] n.k = "Allocation" -> n.start + n.dur
       [] OTHER -> MaxOf({EndOf(T, P, c) : c \in {c \in Kids(T, i) : Sat(T, P, c)}})
 
@@ -275,6 +293,21 @@ Report(id, clause, detail) ==
 \* bad => report, always TRUE
 Flag(bad, id, clause, detail) == IF bad THEN Report(id, clause, detail) ELSE TRUE
 
+\* vacuity counters: how often each structural situation was exercised
+Tally(T, P, ut) ==
+    <<Cardinality({i \in Leaves(T) : P[i].on}),
+      Cardinality({c \in DOMAIN ut : ut[c] > 0}),
+      Cardinality({i \in OfKind(T, "Max") : Sat(T, P, i)}),
+      Cardinality({i \in OfKind(T, "Min") : Sat(T, P, i) /\ Cond(T, i)}),
+      Cardinality({i \in OfKind(T, "LessThan") : Sat(T, P, i) /\ Cond(T, i)}),
+      Cardinality({i \in OfKind(T, "Scale") : Sat(T, P, i)}),
+      Cardinality({c \in DOMAIN ut : ut[c] = T.q[c[1]]})>>
+NTally == 7
+AddTally(t) == \A k \in 1..NTally : TLCSet(k, TLCGet(k) + t[k])
+
+ASSUME \A k \in 1..NTally : TLCSet(k, 0)
+
+
 PlacementOf(T, r) ==
     [i \in Leaves(T) |->
         IF \E j \in 1..Len(r.pl) : r.pl[j].leaf = i
@@ -295,6 +328,7 @@ CheckRec(r) ==
         P == PlacementOf(T, r)
         strays == {j \in 1..Len(r.pl) : r.pl[j].leaf \notin Leaves(T)}
         U == TreeUtility(T, P)
+        ut == UseTable(T, P)
     IN
     /\ Flag(~ModelSat(M, r.x), r.id, "C20.model_sat",
             [bounds |-> BoundViol(M, r.x),
@@ -304,14 +338,22 @@ CheckRec(r) ==
                [kind |-> "objective", model |-> ObjVal(M, r.x), reported |-> r.robj, root |-> r.rutil])
     /\ Flag(strays # {}, r.id, "C20.choose_exact", [kind |-> "placement of an unknown task", n |-> strays])
     /\ \A i \in Leaves(T) :
-          /\ Flag(P[i].on /\ ~LeafOK(T, P, i), r.id, "C20.choose_exact", [node |-> i, got |-> P[i]])
-          /\ Flag(~P[i].on /\ ~LeafOK(T, P, i), r.id, "C20.unsat_nothing", [node |-> i, got |-> P[i]])
+          /\ Flag(P[i].on /\ ~LeafOK(T, P, i), r.id, "C20.choose_exact",
+                  [node |-> i, bad |-> LeafBad(T, P, i), got |-> P[i]])
+          /\ Flag(~P[i].on /\ ~LeafOK(T, P, i), r.id, "C20.unsat_nothing",
+                  [node |-> i, bad |-> LeafBad(T, P, i), got |-> P[i]])
           /\ Flag(r.nclaim[i] = 0 /\ (r.nown[i] = 1 \/ P[i].on), r.id, "C20.unsat_nothing",
                   [node |-> i, kind |-> "unsatisfied leaf carries a placement"])
-    /\ Flag(~CapOK(T, P), r.id, "C20.capacity",
-            [over |-> {<<c[1], c[2], Use(T, P, c[1], c[2])>> : c \in CapViol(T, P)}])
+    /\ Flag(CapViolIn(T, ut) # {}, r.id, "C20.capacity",
+            [over |-> {<<c[1], c[2], ut[c]>> : c \in CapViolIn(T, ut)},
+             users |-> {i \in Leaves(T) \cup AllocNodes(T) : \E c \in CapViolIn(T, ut) :
+                           IF i \in Leaves(T) THEN LeafUse(T, P, i, c[1], c[2]) > 0
+                           ELSE AllocUse(T, i, c[1], c[2]) > 0}])
+    /\ AddTally(Tally(T, P, ut))
     /\ \A i \in OfKind(T, "Max") :
-          Flag(~MaxOK(T, P, i), r.id, "C20.max_one", [node |-> i])
+          /\ Flag(~MaxOK(T, P, i), r.id, "C20.max_one", [node |-> i, kind |-> "placed"])
+          /\ Flag(Cardinality({c \in Kids(T, i) : r.nclaim[c] = 1}) > 1, r.id, "C20.max_one",
+                  [node |-> i, kind |-> "reported"])
     /\ \A i \in OfKind(T, "Min") :
           /\ Flag(~MinOK(T, P, i), r.id, "C20.min_all", [node |-> i, kind |-> "partial"])
           /\ Flag(r.nclaim[i] = 1 /\ \E c \in Kids(T, i) : Cond(T, c) /\ r.nclaim[c] = 0,
@@ -328,7 +370,7 @@ CheckRun(T, best, s, run) ==
          Flag((run.feasible = 0 /\ best # -1) \/ (run.feasible = 1 /\ run.max # best),
               run.id, clause, [best |-> best, max |-> run.max, feasible |-> run.feasible, passes |-> run.passes])
     ELSE Flag(run.feasible = 1 /\ run.fine >= -1 /\ run.max > run.fine, run.id, "C20.coarse_le",
-              [g |-> run.g, max |-> run.max, fine |-> run.fine, passes |-> run.passes])
+              [best |-> run.fine, max |-> run.max, feasible |-> run.feasible, g |-> run.g, passes |-> run.passes])
 
 CheckSum(s) ==
     LET T == Batch.trees[s.tree]
@@ -336,29 +378,13 @@ CheckSum(s) ==
     IN  /\ PrintT("@@BEST " \o s.id \o " " \o ToString(best))
         /\ \A j \in 1..Len(s.runs) : CheckRun(T, best, s, s.runs[j])
 
-\* vacuity counters: how often each structural situation was exercised
-Tally(r) ==
-    LET T == Batch.trees[r.tree]
-        P == PlacementOf(T, r)
-    IN  <<Cardinality({i \in Leaves(T) : P[i].on}),
-          Cardinality({c \in Parts(T) \X Times(T) : Use(T, P, c[1], c[2]) > 0}),
-          Cardinality({i \in OfKind(T, "Max") : Sat(T, P, i)}),
-          Cardinality({i \in OfKind(T, "Min") : Sat(T, P, i) /\ Cond(T, i)}),
-          Cardinality({i \in OfKind(T, "LessThan") : Sat(T, P, i) /\ Cond(T, i)}),
-          Cardinality({i \in OfKind(T, "Scale") : Sat(T, P, i)}),
-          Cardinality({c \in Parts(T) \X Times(T) : Use(T, P, c[1], c[2]) = T.q[c[1]]})>>
-NTally == 7
-AddTally(t) == \A k \in 1..NTally : TLCSet(k, TLCGet(k) + t[k])
-
-ASSUME \A k \in 1..NTally : TLCSet(k, 0)
-
 VARIABLE idx
 Init == idx = 0
 Next ==
     /\ idx < NRecs + NSums
     /\ idx' = idx + 1
     /\ IF idx' <= NRecs
-       THEN CheckRec(Batch.recs[idx']) /\ AddTally(Tally(Batch.recs[idx']))
+       THEN CheckRec(Batch.recs[idx'])
        ELSE CheckSum(Batch.sums[idx' - NRecs])
     /\ (idx' = NRecs + NSums) =>
           PrintT("@@TALLY " \o ToString([k \in 1..NTally |-> TLCGet(k)]))
